@@ -7,9 +7,9 @@ use vstd::std_specs::hash::*;
 // ---------- prelude (trusted) ----------
 pub uninterp spec fn string_of(s: Seq<char>) -> String;
 pub broadcast axiom fn ax_string_of_view(s: Seq<char>)
-    ensures #[trigger] string_of(s)@ == s;
+    ensures (#[trigger] string_of(s))@ == s;
 pub broadcast axiom fn ax_string_ext(x: String)
-    ensures #[trigger] string_of(x@) == x;
+    ensures (#[trigger] string_of(x@)) == x;
 pub open spec fn sk(q: &str) -> String { string_of(q@) }
 
 pub broadcast axiom fn ax_contains_str_key<V>(m: Map<String, V>, q: &str)
@@ -46,6 +46,41 @@ pub assume_specification<'a, K, V, S, A, Q> [std::collections::HashMap::<K, V, S
         },
 ;
 
+use vstd::std_specs::iter::*;
+// proved lemma: a duplicate-free sequence of length |S| that covers S contains only members of S
+pub broadcast proof fn lemma_cover_is_exact(r: Seq<&String>, s: Set<String>)
+    requires
+        #![trigger r.no_duplicates(), s.finite()]
+        s.finite(),
+        r.no_duplicates(),
+        r.len() == s.len(),
+        forall|k: String| s.contains(k) ==> exists|i: int| 0 <= i < r.len() && *#[trigger] r[i] == k,
+    ensures
+        forall|i: int| 0 <= i < r.len() ==> s.contains(*#[trigger] r[i]),
+{
+    let m = r.map_values(|x: &String| *x);
+    assert(m.len() == r.len());
+    assert(m.no_duplicates()) by {
+        assert forall|i: int, j: int| 0 <= i < m.len() && 0 <= j < m.len() && i != j implies m[i] != m[j] by {
+            assert(m[i] == *r[i]); assert(m[j] == *r[j]);
+            assert(r[i] != r[j]);
+        }
+    }
+    m.unique_seq_to_set();
+    assert(m.to_set().len() == s.len());
+    assert(s.subset_of(m.to_set())) by {
+        assert forall|k: String| s.contains(k) implies m.to_set().contains(k) by {
+            let i = choose|i: int| 0 <= i < r.len() && *#[trigger] r[i] == k;
+            assert(m[i] == k);
+        }
+    }
+    vstd::set_lib::lemma_subset_equality(s, m.to_set());
+    assert forall|i: int| 0 <= i < r.len() implies s.contains(*#[trigger] r[i]) by {
+        assert(m[i] == *r[i]);
+        assert(m.to_set().contains(m[i]));
+    }
+}
+
 // ---------- real code (reduced field set) ----------
 pub struct Channel {
     pub users: HashMap<String, u8>,
@@ -73,7 +108,7 @@ pub open spec fn member(s: VolatileState, n: String, c: String) -> bool {
     s.channels@.contains_key(c) && s.channels@[c].users@.contains_key(n)
 }
 pub open spec fn sym(s: VolatileState) -> bool {
-    forall|n: String, c: String| (s.users@.contains_key(n) && #[trigger] s.users@[n].channels@.contains(c)) <==> #[trigger] member(s, n, c)
+    forall|n: String, c: String| #![trigger s.users@[n].channels@.contains(c)] #![trigger member(s, n, c)] (s.users@.contains_key(n) && s.users@[n].channels@.contains(c)) <==> member(s, n, c)
 }
 
 impl VolatileState {
@@ -133,21 +168,55 @@ impl VolatileState {
             final(self).users@ == old(self).users@.remove(sk(nick)),
             forall|c: String| Self::post_chan(old(self).channels@, final(self).channels@, c, sk(nick)),
     {
-        broadcast use group_hash_axioms, bridge;
+        broadcast use group_hash_axioms, bridge, lemma_cover_is_exact;
         if let Some(user) = self.users.remove(nick) {
             let ghost mid_users = self.users@;
+            let ghost chans = user.channels@;
+            let ghost mut done: Set<String> = Set::empty();
             for chname in it: user.channels.iter()
                 invariant
                     self.users@ == mid_users,
                     mid_users == old(self).users@.remove(sk(nick)),
                     old(self).users@.contains_key(sk(nick)),
-                    user.channels@ == old(self).users@[sk(nick)].channels@,
+                    chans == user.channels@,
+                    chans == old(self).users@[sk(nick)].channels@,
+                    chans.finite(),
                     sym(*old(self)),
-                    forall|c: String| it.history@.contains(&c) ==> Self::post_chan(old(self).channels@, self.channels@, c, sk(nick)),
-                    forall|c: String| !it.history@.contains(&c) ==>
+                    it.seq().no_duplicates(),
+                    it.seq().len() == chans.len(),
+                    forall|k: String| chans.contains(k) ==> exists|i: int| 0 <= i < it.seq().len() && *#[trigger] it.seq()[i] == k,
+                    forall|i: int| 0 <= i < it.seq().len() ==> chans.contains(*#[trigger] it.seq()[i]),
+                    forall|c: String| done.contains(c) <==> (exists|j: int| 0 <= j < it.index@ && *#[trigger] it.seq()[j] == c),
+                    forall|c: String| done.contains(c) ==> Self::post_chan(old(self).channels@, self.channels@, c, sk(nick)),
+                    forall|c: String| !done.contains(c) ==>
                         (self.channels@.contains_key(c) <==> old(self).channels@.contains_key(c)) && (old(self).channels@.contains_key(c) ==> self.channels@[c] == old(self).channels@[c]),
             {
+                broadcast use group_hash_axioms, bridge, lemma_cover_is_exact;
+                proof {
+                    assert(chans.contains(*chname));
+                    assert(member(*old(self), sk(nick), *chname));
+                    assert(!done.contains(*chname));
+                    assert(string_of((*chname)@) == *chname);
+                    assert(self.channels@.contains_key(*chname) && self.channels@[*chname] == old(self).channels@[*chname]);
+                }
                 self.remove_user_from_channel(chname, nick);
+                proof { done = done.insert(*chname); }
+            }
+            proof {
+                assert forall|c: String| Self::post_chan(old(self).channels@, self.channels@, c, sk(nick)) by {
+                    if chans.contains(c) {
+                        assert(done.contains(c));
+                    } else {
+                        assert(!member(*old(self), sk(nick), c));
+                        assert(!done.contains(c));
+                    }
+                }
+            }
+        } else {
+            proof {
+                assert forall|c: String| Self::post_chan(old(self).channels@, self.channels@, c, sk(nick)) by {
+                    assert(!member(*old(self), sk(nick), c));
+                }
             }
         }
     }
